@@ -160,7 +160,7 @@ pub fn meta(prop: &str) -> Meta {
         ),
         "C11" => (
             "exploration",
-            "each evaluation = one recording read under 6 (quick) / 12 (thorough) schedules: whole, one byte at a time, a two-piece split at a drawn offset, then drawn fixed/random/event-edge fragmentations with Interrupted bursts, each x skip-frames x hash requested; oracle: hash == xxh3: + 16 hex of the one-shot XXH3-64 of the file bytes, reader position == file length, None when not requested, unchanged through .slpp. distinct = shape signature incl. the sequence of (schedule class, skip, hash) combinations; non-trivial = some read actually returned short or Interrupted",
+            "each evaluation = one recording read under 6 (quick) / 12 (thorough) schedules: whole, one byte at a time, a two-piece split at a drawn offset, then drawn fixed/random/event-edge fragmentations with Interrupted bursts, each x skip-frames x hash requested (also when read back from .slpp with and without skip_frames); 1 run in 2500 / 6000 instead hashes a replay of 2^31..2^32-1 bytes read from a sparse stream; oracle: hash == xxh3: + 16 hex of the one-shot XXH3-64 of the file bytes, reader position == file length, None when not requested, unchanged through .slpp. distinct = shape signature incl. the sequence of (schedule class, skip, hash) combinations; non-trivial = some read actually returned short or Interrupted",
             none,
         ),
         "C12" => (
